@@ -436,6 +436,36 @@ def precedence_probe(ctx):
             "A then B + injected (injected wins)": (accepted_arity(["vfpa", "vfpb"], inj), [3]),
             "injected only": (accepted_arity([], inj), [3]),
         }
+        # the imported file changes between two parses of one process (same relative import, same import_path): the gate
+        # set in force is the one the file defines NOW -- an arity the file no longer offers is an undefined call
+        with open(os.path.join(d, "vfpa.py"), "w") as fd:
+            fd.write(PULSE_MOD % 2)
+        os.utime(os.path.join(d, "vfpa.py"), (2_000_000_000, 2_000_000_000))
+        table["A after the file was rewritten to arity 2"] = (accepted_arity(["vfpa"], None), [2])
+        # ... and the default import path follows the working directory
+        d2 = os.path.join(d, "elsewhere")
+        os.makedirs(d2, exist_ok=True)
+        with open(os.path.join(d2, "vfpa.py"), "w") as fd:
+            fd.write(PULSE_MOD % 3)
+        cwd = os.getcwd()
+
+        def arity_in_cwd(where):
+            os.chdir(where)
+            try:
+                acc = []
+                for k in (1, 2, 3):
+                    text = "from .vfpa usepulses *\nregister q[3]\nprepare_all\nG %s\nmeasure_all\n" % " ".join(qs[:k])
+                    o = lib.outcome(lib.parse, text, None, autoload_pulses=True)
+                    if o[0] == "exc":
+                        return ("exc", o[1], o[2])
+                    if o[0] == "ok":
+                        acc.append(k)
+                return acc
+            finally:
+                os.chdir(cwd)
+
+        table["A by default path, in the first directory"] = (arity_in_cwd(d), [2])
+        table["A by default path, after chdir to a directory with another vfpa"] = (arity_in_cwd(d2), [3])
         rec.count("precedence-probes")
         rec.note("gate_set_precedence", {k: {"accepted_arities": v[0], "expected": v[1]} for k, v in table.items()})
         for k, (got, exp) in table.items():
